@@ -171,6 +171,12 @@ def run_script(run, case):
                     kinds['foreign'] = 'the stale frame was returned as the answer'
                 elif cls.startswith('other'):
                     kinds['not-a-result'] = 'returned %r' % (result,)
+                    if (kind in ('tcp', 'rtu-over-tcp') and cls.endswith('Response') and len(consumed) >= 2
+                            and any(n in ('partial', 'garbage', 'late') for n in consumed[:-1])):
+                        # bytes an earlier ATTEMPT of this transaction left unread are glued to the next attempt's bytes (MBAP has no checksum)
+                        regs.add('tcp-unread-reply-bytes-poison-next-transaction')
+                        run.region('tcp-unread-reply-bytes-poison-next-transaction')
+                        kinds['composite-of-unread-bytes'] = kinds.pop('not-a-result')
                 if must_succeed(cfg, names) and cls not in ('own', 'own-exception'):
                     kinds['valid-reply-ignored'] = 'script %r with %r obliges the client to return the reply; it returned %r after %d transmissions' % (names, cfg, result, attempts)
         # healthy follow-up transaction
@@ -231,8 +237,8 @@ def run_script(run, case):
     if 'tcp-peer-close-not-detected' in regs and 'followup-on-dead-socket' in kinds:
         excuse.add('followup-on-dead-socket')
         notes.append(('tcp-peer-close-not-detected', 'TCP client ignores end-of-stream: it keeps the dead socket and the next transaction fails'))
-    if 'tcp-unread-reply-bytes-poison-next-transaction' in regs and 'followup-poisoned' in kinds:
-        excuse.add('followup-poisoned')
+    if 'tcp-unread-reply-bytes-poison-next-transaction' in regs and {'followup-poisoned', 'composite-of-unread-bytes'} & set(kinds):
+        excuse |= {'followup-poisoned', 'composite-of-unread-bytes'}
         notes.append(('tcp-unread-reply-bytes-poison-next-transaction', 'unread bytes of an earlier reply break the next transaction'))
     left = set(kinds) - excuse
     if not left:
